@@ -22,7 +22,8 @@ META = {
         "functools.total_ordering. Range/Location __eq__ are evaluated over all component-equality cases; "
         "__repr__ f-strings are folded with symbolic field values and must give line:character, start-end, "
         "uri:range. Second target (thorough tier and quick): the method source strings the generator injects "
-        "(utils.py _get_additional_methods), folded to code and analysed the same way."),
+        "(utils.py _get_additional_methods), folded to code and analysed the same way."
+        "A field compared by identity (`is`) is a violation as such; look-alike operands of another class must get NotImplemented; every position with fields in 0..2^31-1 must be constructible (C12's accept-set findings are taken over)."),
     "trusted_base": ["A5: attrs.define keeps user __eq__; functools.total_ordering derivation; reflected-operand protocol",
                      "Python tuple comparison is lexicographic"],
     "assumptions": ["line/character are ints (enforced by the uinteger validator, C12)"],
